@@ -111,7 +111,7 @@ func runC12(c *eng.Ctx) {
 						cond := resolveLocal(info, lit.Body, is.Cond)
 						if be, isB := ast.Unparen(cond).(*ast.BinaryExpr); isB && (be.Op == token.NEQ || be.Op == token.EQL) {
 							for _, side := range []ast.Expr{be.X, be.Y} {
-								if o := eng.SelObj(info, side); o != nil && o.Name() == "DebugKeepTmpFilesVar" {
+								if o := eng.SelObj(info, side); o != nil && nameOf(o) == "DebugKeepTmpFilesVar" {
 									mentions = true
 								}
 							}
@@ -138,7 +138,7 @@ func runC12(c *eng.Ctx) {
 						return false
 					}
 					for i := 0; i < 2; i++ {
-						if o := eng.SelObj(info, x); o != nil && o.Name() == "DebugKeepTmpFilesVar" {
+						if o := eng.SelObj(info, x); o != nil && nameOf(o) == "DebugKeepTmpFilesVar" {
 							if v, isC := eng.ConstStr(info, y); isC && v == "yes" {
 								return !eq
 							}
@@ -339,7 +339,7 @@ func runC12(c *eng.Ctx) {
 		// executor
 		pathFld := p.Field(pkgHook, "Hook", "Path")
 		ok := false
-		for _, call := range callsDeep(info, run.Decl.Body, func(o types.Object, _ *ast.CallExpr) bool { return o != nil && o.Name() == "NewExecutor" }) {
+		for _, call := range callsDeep(info, run.Decl.Body, func(o types.Object, _ *ast.CallExpr) bool { return o != nil && nameOf(o) == "NewExecutor" }) {
 			if len(call.Args) == 4 {
 				dir, isC := ast.Unparen(call.Args[0]).(*ast.CallExpr)
 				dirOK := isC && (eng.IsPkgFunc(eng.CalleeOf(info, dir), "path", "Dir") || eng.IsPkgFunc(eng.CalleeOf(info, dir), "path/filepath", "Dir")) && eng.IsField(info, dir.Args[0], pathFld)
@@ -366,7 +366,7 @@ func runC12(c *eng.Ctx) {
 		g := p.GraphOf(run)
 		isEnviron := func(n *eng.GNode) bool {
 			return len(g.CallsAt(n, func(o types.Object, _ *ast.CallExpr) bool {
-				return o != nil && o.Name() == "Environ" && o.Pkg() != nil && (o.Pkg().Path() == "os" || o.Pkg().Path() == "os/exec")
+				return o != nil && nameOf(o) == "Environ" && o.Pkg() != nil && (o.Pkg().Path() == "os" || o.Pkg().Path() == "os/exec")
 			})) > 0
 		}
 		isContract := func(n *eng.GNode) bool {
@@ -441,7 +441,7 @@ func runC12(c *eng.Ctx) {
 		checkErrSites(r4, run, func(o types.Object) bool { return names[o.Name()] }, nil, nil)
 	}
 	if f := r4.NeedFunc(pkgExec + ".(*Executor).RunAndLogLines"); f != nil {
-		checkErrSites(r4, f, func(o types.Object) bool { return o.Name() == "Run" }, nil, nil)
+		checkErrSites(r4, f, func(o types.Object) bool { return nameOf(o) == "Run" }, nil, nil)
 	}
 
 	// R5 who runs hooks
